@@ -111,7 +111,7 @@ Proof.
   - rewrite check_end_spec by (intros p E; apply Hp; exact E). cbn. intuition.
   - inversion Hsd as [|? ? Hy Hall Ht]; subst.
     destruct (mstart y =? a) eqn:E1.
-    + unfold contains. split.
+    + unfold contains, check_end. destruct (mend y <=? a) eqn:E0; [exfalso; lia|]. split.
       * intros H; inversion H; subst. split; [left; now left | lia].
       * intros [[[<-|Hx]|Hpm] Hc]; [reflexivity | |].
         -- specialize (Hall m Hx). exfalso. lia.
@@ -184,9 +184,27 @@ Proof.
   induction l as [|y t IH]; intros a prev m l0 Hi Hp; cbn [find_cand].
   - apply check_end_in. exact Hp.
   - destruct (mstart y =? a).
-    + intros E; inversion E; subst. apply Hi. now left.
+    + apply check_end_in. intros p E; inversion E; subst. apply Hi. now left.
     + destruct (a <? mstart y); [apply check_end_in; exact Hp|].
       apply IH; [intros z Hz; apply Hi; now right | intros p E; inversion E; subst; apply Hi; now left].
+Qed.
+
+(* whatever the list looks like - unsorted, overlapping, with empty or inverted ranges - the lookup never
+   answers with a module whose range does not contain the address (since the repair of S24 the exact hit of
+   the binary search makes the end test too) *)
+Lemma find_cand_contains (l : list module) : forall a prev m,
+  (forall p, prev = Some p -> mstart p <= a) -> find_cand mdata l a prev = Some m -> contains m a.
+Proof.
+  assert (CE : forall (prev : option module) a m, (forall p, prev = Some p -> mstart p <= a) ->
+               check_end mdata prev a = Some m -> contains m a).
+  { intros prev a m Hp. unfold check_end, contains. destruct prev as [p|]; [|discriminate].
+    specialize (Hp p eq_refl). destruct (mend p <=? a) eqn:E; [discriminate|]. intros H; inversion H; subst. lia. }
+  induction l as [|y t IH]; intros a prev m Hp; cbn [find_cand].
+  - apply CE. exact Hp.
+  - destruct (mstart y =? a) eqn:E1.
+    + apply CE. intros p E; inversion E; subst. lia.
+    + destruct (a <? mstart y) eqn:E2; [apply CE; exact Hp|].
+      apply IH. intros p E; inversion E; subst. lia.
 Qed.
 
 Lemma find_module_in (l : list module) a m rel : find_module mdata l a = Ok (Some (m, rel)) -> In m l.
@@ -197,6 +215,18 @@ Proof.
   destruct (a0 <? W32); [|discriminate]. intros H; inversion H; subst.
   eapply find_cand_in; [apply incl_refl | | exact E]. intros p Hp; discriminate.
 Qed.
+
+Theorem find_module_only_container (l : list module) a m rel :
+  find_module mdata l a = Ok (Some (m, rel)) -> In m l /\ contains m a.
+Proof.
+  intros H. split; [eapply find_module_in; exact H|].
+  unfold find_module in H. destruct (find_cand _ l a None) as [c|] eqn:E; [|discriminate].
+  destruct (a <? base_avma c); [discriminate|].
+  unfold res_bind, sub64p in H. destruct (base_avma c <=? a); [|discriminate].
+  destruct (a - base_avma c <? W32); [|discriminate]. inversion H; subst.
+  eapply find_cand_contains; [|exact E]. intros p Hp; discriminate.
+Qed.
+
 
 (* ---------- max_known_code_address ---------- *)
 Lemma mods_max_nil : mods_max mdata [] = 0. Proof. reflexivity. Qed.
